@@ -3,6 +3,6 @@ CONSTANTS
   T <- TraceT
   StrictA = FALSE
   CheckCat = FALSE
-INVARIANTS SizesAgree
+INVARIANTS SizesAgree OtherSizesAgree EncodedLenRelation
 POSTCONDITION TraceAccepted
 CHECK_DEADLOCK FALSE
